@@ -82,9 +82,9 @@ def rand_seq(rng, tier):
         step = rng.choice([1, 1, 2, 3, -1, -2])
         start = rng.randint(-10, 30)
         return rng.choice(["range", "lmap"]), "stream", [L.vint(start + step * j) for j in range(n)], False
-    if r < 0.96:
+    if r < 0.92:
         return "lsel", "stream", [L.vint(rng.randint(-20, 60)) for _ in range(n)], False
-    return "wstream", "stream", [L.vint(rng.randint(-20, 60)) for _ in range(min(n, 6))], False
+    return rng.choice(["wstream", "wadv"]), "stream", [L.vint(rng.randint(-20, 60)) for _ in range(min(n, 6))], False
 
 
 def rand_read(rng, tag, k, xs):
